@@ -2,49 +2,9 @@
    nothing under any interleaving (invariant over partial progress, DESIGN.md A.6); the old loop
    body does (a concrete losing schedule). *)
 From Coq Require Import ZArith List Bool Arith Lia Permutation.
-Require Import Bits.Lib.Bytes Bits.Model.NodeQueue.
+Require Import Bits.Lib.Bytes Bits.Model.NodeQueue Bits.Spec.NodeQueue.
 Import ListNotations.
 Import Coq.Init.Byte.
-
-(* ---------------------------------------------------------------------------------------- *)
-(* the schedule-free specification                                                            *)
-(* ---------------------------------------------------------------------------------------- *)
-Definition unhandled (l : list msg) : list msg := filter (fun m => negb (handled m)) l.
-Definition tag (p : tid) (l : list msg) : list (tid * msg) := map (pair p) l.
-Definition qproj (p : tid) (q : list (tid * msg)) : list (tid * msg) :=
-  filter (fun x => Nat.eqb (fst x) p) q.
-
-(* verack for a version, pong with the same nonce for a ping, nothing for anything else *)
-Definition expected_reply (m : msg) : list reply :=
-  match m with
-  | Ping n => [Pong n]
-  | Version _ => [VerackR]
-  | Verack => []
-  | Other _ _ => []
-  end.
-Definition expected_sent (l : list msg) : list reply := flat_map expected_reply l.
-
-(* the payload of the last version message seen so far *)
-Definition stored_after (o : option bytes) (l : list msg) : option bytes :=
-  fold_left (fun o m => match m with Version v => Some v | _ => o end) l o.
-Definition expected_stored (l : list msg) : option bytes := stored_after None l.
-
-(* all unhandled messages of all peers, peer by peer *)
-Definition all_unhandled (progs : list (list msg)) : list (tid * msg) :=
-  concat (map (fun p => tag p (unhandled (prog_of progs p))) (seq 0 (length progs))).
-
-(* THE property, as a predicate on a final state *)
-Definition exactly_once (progs : list (list msg)) (s : state) : Prop :=
-  (* per peer: exactly its unhandled messages, in sending order, attributed to it *)
-  (forall p, qproj p (queue s) = tag p (unhandled (prog_of progs p))) /\
-  (* per peer: exactly the replies to its versions and pings, in order, on its own socket *)
-  (forall p, sent s p = expected_sent (prog_of progs p)) /\
-  (* globally: no loss, no duplication *)
-  Permutation (queue s) (all_unhandled progs) /\
-  (* nothing handled stays queued, nothing is attributed to a peer that does not exist *)
-  Forall (fun x => handled (snd x) = false /\ fst x < length progs) (queue s) /\
-  (* the version payload kept for the peer is the last one it sent *)
-  (forall p, stored s p = expected_stored (prog_of progs p)).
 
 (* ---------------------------------------------------------------------------------------- *)
 (* small facts                                                                                *)
@@ -449,8 +409,8 @@ Lemma run_blocks (k : tid -> nat) : forall ps s,
 Proof.
   induction ps as [|a ps IH]; intros s N M.
   - intros s'. subst s'. change (run s (flat_map (fun p => repeat p (k p)) [])) with s.
-    split; [exact N|]. split; [intros p []|reflexivity].
-  - cbn [flat_map]. intros s'. subst s'. rewrite run_app.
+    split; [exact N|]. split; [intros p Hp; destruct Hp | intros p _; reflexivity].
+  - intros s'. subst s'. cbn [flat_map]. rewrite run_app.
     destruct (run_block a (k a) s (N a)) as (N1 & M1 & O1).
     set (s1 := run s (repeat a (k a))) in *.
     assert (Fa : thread_finished (threads s1 a) = true).
@@ -489,10 +449,6 @@ Qed.
 Lemma complete_app progs a b : complete progs a -> complete progs (a ++ b).
 Proof. unfold complete. intros F p. rewrite run_app. apply run_finished_stable, F. Qed.
 
-(* a decidable test of completeness for concrete runs *)
-Definition finishedb (n : nat) (s : state) : bool :=
-  forallb (fun p => thread_finished (threads s p)) (seq 0 n).
-
 Lemma run_beyond progs sched p : length progs <= p ->
   thread_finished (threads (run (init progs) sched) p) = true.
 Proof.
@@ -504,6 +460,32 @@ Lemma finishedb_complete progs sched :
 Proof.
   intros H p. destruct (Nat.lt_ge_cases p (length progs)) as [Hlt|Hge]; [|now apply run_beyond].
   unfold finishedb in H. rewrite forallb_forall in H. apply H. apply in_seq. lia.
+Qed.
+
+(* the eager scheduler only produces runs of the fine-grained semantics *)
+Lemma eager_is_schedule stp : forall sched s,
+  exists sched', run_with (eager stp) s sched = run_with stp s sched'.
+Proof.
+  induction sched as [|t sched IH]; intros s.
+  - exists []. reflexivity.
+  - cbn [run_with fold_left]. unfold eager at 2.
+    destruct (cur (threads (stp s t) t)) eqn:Ec;
+      try (destruct (IH (stp s t)) as (sched' & E); exists (t :: sched'); exact E).
+    destruct (todo (threads (stp s t) t)) eqn:Et.
+    + destruct (IH (stp s t)) as (sched' & E). exists (t :: sched'). exact E.
+    + destruct (IH (stp (stp s t) t)) as (sched' & E). exists (t :: t :: sched'). exact E.
+Qed.
+
+Theorem queue_exactly_once_eager : forall progs sched,
+  let s := run_with (eager step) (start_eager step (length progs) (init progs)) sched in
+  finished s -> exactly_once progs s.
+Proof.
+  intros progs sched s F. subst s.
+  destruct (eager_is_schedule step sched (start_eager step (length progs) (init progs))) as (sched' & E).
+  rewrite E in *. unfold start_eager in *.
+  change (fold_left step (seq 0 (length progs)) (init progs)) with (run (init progs) (seq 0 (length progs))) in *.
+  change (run_with step) with run in *. rewrite <- run_app in *.
+  apply queue_exactly_once. exact F.
 Qed.
 
 (* ---------------------------------------------------------------------------------------- *)
